@@ -36,9 +36,14 @@ var Battery = []string{
 // mistype all stay frequent.
 func (g *Gen) DocFor(p *spec.Path) interface{} {
 	g.budget = 300 // planted structure is bounded whatever the path looks like (long paths would otherwise grow it exponentially)
-	g.long = 0
+	g.long, g.longCap = 0, 260
 	if g.R.Intn(16) == 0 {
 		g.long = 1 + g.R.Intn(2) // up to two containers of this document are padded beyond the small sizes
+		subPaths := 0
+		p.Walk(func(*spec.Path) { subPaths++ })
+		if subPaths > 2 {
+			g.longCap = 36 // several operand paths are evaluated per member (and `$` operands walk the whole document each time): keep the product small
+		}
 	}
 	d := g.build(p.Steps, 0, nil)
 	// $-rooted operands inside filters look at the root: give it some members
@@ -77,7 +82,7 @@ func (g *Gen) padList(l []interface{}) []interface{} {
 		return l
 	}
 	g.long--
-	n := g.longSize()
+	n := min(g.longSize(), g.longCap)
 	out := make([]interface{}, 0, n)
 	for len(out)+len(l) < n {
 		if len(l) > 0 && g.R.Intn(4) == 0 {
@@ -100,10 +105,7 @@ func (g *Gen) padObject(m map[string]interface{}) map[string]interface{} {
 		return m
 	}
 	g.long--
-	n := g.longSize()
-	if n > 80 {
-		n = 80
-	}
+	n := min(g.longSize(), g.longCap, 80)
 	for i := 0; len(m) < n; i++ {
 		k := "k" + string(rune('0'+i/100)) + string(rune('0'+i/10%10)) + string(rune('0'+i%10))
 		if g.R.Intn(3) == 0 {
